@@ -35,9 +35,16 @@ func vpStatsCheck(tag string, seg segment.Segment, exp *vpExpect, merged bool) {
 // C16: statistics of built, loaded and merged segments; field length = sum of term frequencies.
 func vpH_C16_stats() {
 	g := vpNewGen(0)
-	g.perTermFreq = true
-	a := g.batch("A", 1, 2, []int{2, 3, 4, 5, 6, 9})
-	b := g.batch("B", 0, 1, []int{2, 5, 9})
+	var a, b []*vpDoc
+	if vpChoice("independent-freqs", 2) == 1 {
+		// every term has its own symbolic frequency: small shapes only
+		g.perTermFreq = true
+		a = g.batch("A", 1, 1, []int{3, 4, 5, 9})
+		b = g.batch("B", 0, 1, []int{5, 9})
+	} else {
+		a = g.batch("A", 1, 2, []int{2, 3, 4, 5, 6, 9})
+		b = g.batch("B", 0, 1, []int{2, 5, 9})
+	}
 	g.done()
 	vpSetLengths(a)
 	vpSetLengths(b)
